@@ -91,3 +91,7 @@ pub fn hex(b: &[u8]) -> String {
 pub fn unhex(s: &str) -> Vec<u8> {
     (0..s.len() / 2).map(|i| u8::from_str_radix(&s[2 * i..2 * i + 2], 16).unwrap()).collect()
 }
+
+pub fn hex_or_underscore(b: &[u8]) -> String {
+    if b.is_empty() { "_".to_string() } else { hex(b) }
+}
